@@ -433,7 +433,14 @@ func runSoak(o *hx.Out, d SoakDesc, origin string) {
 		Nontrivial: len(steps) >= 10 && faults > 0 && snaps > 0, Sig: fmt.Sprintf("soak:%x", hashBytes(js)), Origin: origin})
 }
 
-func genSoak(o *hx.Out, r *hx.Rand) {
+func genSoak(o *hx.Out, r *hx.Rand) { genSoakN(o, r, 40+r.Intn(30)) }
+
+// shortSoak (both tiers): the shortest history that takes the path a restarted meta node takes
+// in production - acknowledged commands, a raft snapshot on two nodes, more commands, restart
+// of the whole cluster (each node comes back from its snapshot + log suffix), one more command.
+func shortSoak(o *hx.Out, r *hx.Rand) { genSoakN(o, r, 9) }
+
+func genSoakN(o *hx.Out, r *hx.Rand, n int) {
 	g := &gen{r: r, base: 1600000000000000000 + int64(r.Intn(1000))*int64(time.Hour)}
 	shadow := meta.NewVerifFSM(true)
 	var d SoakDesc
@@ -451,7 +458,6 @@ func genSoak(o *hx.Out, r *hx.Rand) {
 	add(Cmd{K: "CreateDatabase", Idx: idx, Term: 1, S: []string{"db0"}})
 	idx++
 	add(Cmd{K: "CreateRetentionPolicy", Idx: idx, Term: 1, S: []string{"db0", "rp0"}, U: []uint64{2}, I: []int64{0, int64(time.Hour)}, B: []bool{true}})
-	n := 40 + r.Intn(30)
 	for len(d.Ops) < n {
 		switch w := r.Intn(100); {
 		case w < 8:
